@@ -318,6 +318,10 @@ func parseMember(member string) (Member, error) {
 	if found {
 		// Parse the member properties.
 		for _, pStr := range strings.Split(properties, propertyDelimiter) {
+			if pStr == "" {
+				// An empty piece (";;" or a trailing ";") is not a property.
+				continue
+			}
 			p, err := parseProperty(pStr)
 			if err != nil {
 				return newInvalidMember(), err
